@@ -74,6 +74,7 @@ extern int mpt_output_bind_string(MPT_INTERFACE(output) *out, const char *descr)
 		if (!str.change) {
 			(void) mpt_output_log(out, __func__, MPT_LOG(Error), "%s: %d: %s",
 			                       MPT_tr("identical data destination"), bnd.src.dim+1, descr-len);
+			str.change = 3;
 			continue;
 		}
 		if (str.change & 1) bnd.dst.lay = str.val[0];
@@ -83,6 +84,7 @@ extern int mpt_output_bind_string(MPT_INTERFACE(output) *out, const char *descr)
 		if (!bnd.dst.lay || !bnd.dst.grf || !bnd.dst.wld) {
 			(void) mpt_output_log(out, __func__, MPT_LOG(Error), "%s: %d: %s",
 			                       MPT_tr("illegal data destination"), bnd.src.dim+1, descr - len);
+			str.change = 3;
 			continue;
 		}
 		/* register/write header on first occasion */
